@@ -285,3 +285,60 @@ func VfC06_Calls() {
 	vfAssert("C06.call.inst.pointer", hTySame(NewCall(fp, arg).Type(), ret))
 	vfAssert("C06.catchswitch.term", hTySame(NewCatchSwitch(constant.None, []*Block{blk}, nil).Type(), types.Token))
 }
+
+// VfC06_Casts: casts yield their target type - every conversion constructor,
+// as an instruction and as a constant expression, with a scalar or a vector
+// operand (symbolic length, fixed or scalable) and the target given in full:
+// lane-wise (vector to vector of the same shape) and scalar to scalar for all
+// of them, and for bitcast also between a vector and a non-vector type.
+//
+//vf:unwind 100
+func VfC06_Casts() {
+	n := uint64(vfByte("len"))
+	vfAssume(vfAnd(n >= 1, n <= 16))
+	scal := vfBool("scalable")
+	vec := func(el types.Type) types.Type { return &types.VectorType{Len: n, ElemType: el, Scalable: scal} }
+	fromVec := vfChoice("from", 2) == 1
+	toVec := vfChoice("to", 2) == 1
+	shape := func(isVec bool, el types.Type) types.Type {
+		if isVec {
+			return vec(el)
+		}
+		return el
+	}
+	vfReach("C06.casts")
+	pI8 := types.I8Ptr
+	type cast struct {
+		id       string
+		from, to types.Type // element types
+		inst     func(value.Value, types.Type) interface{ Type() types.Type }
+		expr     func(constant.Constant, types.Type) interface{ Type() types.Type }
+	}
+	casts := []cast{
+		{"trunc", types.I64, types.I8, func(v value.Value, t types.Type) interface{ Type() types.Type } { return NewTrunc(v, t) }, func(c constant.Constant, t types.Type) interface{ Type() types.Type } { return constant.NewTrunc(c, t) }},
+		{"zext", types.I8, types.I64, func(v value.Value, t types.Type) interface{ Type() types.Type } { return NewZExt(v, t) }, func(c constant.Constant, t types.Type) interface{ Type() types.Type } { return constant.NewZExt(c, t) }},
+		{"sext", types.I8, types.I64, func(v value.Value, t types.Type) interface{ Type() types.Type } { return NewSExt(v, t) }, func(c constant.Constant, t types.Type) interface{ Type() types.Type } { return constant.NewSExt(c, t) }},
+		{"fptrunc", types.Double, types.Float, func(v value.Value, t types.Type) interface{ Type() types.Type } { return NewFPTrunc(v, t) }, func(c constant.Constant, t types.Type) interface{ Type() types.Type } { return constant.NewFPTrunc(c, t) }},
+		{"fpext", types.Float, types.Double, func(v value.Value, t types.Type) interface{ Type() types.Type } { return NewFPExt(v, t) }, func(c constant.Constant, t types.Type) interface{ Type() types.Type } { return constant.NewFPExt(c, t) }},
+		{"fptoui", types.Double, types.I32, func(v value.Value, t types.Type) interface{ Type() types.Type } { return NewFPToUI(v, t) }, func(c constant.Constant, t types.Type) interface{ Type() types.Type } { return constant.NewFPToUI(c, t) }},
+		{"fptosi", types.Double, types.I32, func(v value.Value, t types.Type) interface{ Type() types.Type } { return NewFPToSI(v, t) }, func(c constant.Constant, t types.Type) interface{ Type() types.Type } { return constant.NewFPToSI(c, t) }},
+		{"uitofp", types.I32, types.Double, func(v value.Value, t types.Type) interface{ Type() types.Type } { return NewUIToFP(v, t) }, func(c constant.Constant, t types.Type) interface{ Type() types.Type } { return constant.NewUIToFP(c, t) }},
+		{"sitofp", types.I32, types.Double, func(v value.Value, t types.Type) interface{ Type() types.Type } { return NewSIToFP(v, t) }, func(c constant.Constant, t types.Type) interface{ Type() types.Type } { return constant.NewSIToFP(c, t) }},
+		{"ptrtoint", pI8, types.I64, func(v value.Value, t types.Type) interface{ Type() types.Type } { return NewPtrToInt(v, t) }, func(c constant.Constant, t types.Type) interface{ Type() types.Type } { return constant.NewPtrToInt(c, t) }},
+		{"inttoptr", types.I64, pI8, func(v value.Value, t types.Type) interface{ Type() types.Type } { return NewIntToPtr(v, t) }, func(c constant.Constant, t types.Type) interface{ Type() types.Type } { return constant.NewIntToPtr(c, t) }},
+		{"addrspacecast", pI8, &types.PointerType{ElemType: types.I8, AddrSpace: 3}, func(v value.Value, t types.Type) interface{ Type() types.Type } { return NewAddrSpaceCast(v, t) }, func(c constant.Constant, t types.Type) interface{ Type() types.Type } { return constant.NewAddrSpaceCast(c, t) }},
+		{"bitcast", types.I32, types.Float, func(v value.Value, t types.Type) interface{ Type() types.Type } { return NewBitCast(v, t) }, func(c constant.Constant, t types.Type) interface{ Type() types.Type } { return constant.NewBitCast(c, t) }},
+	}
+	k := vfChoice("cast", len(casts))
+	c := casts[k]
+	if c.id != "bitcast" && fromVec != toVec {
+		return // only bitcast converts between a vector and a non-vector type
+	}
+	from, to := shape(fromVec, c.from), shape(toVec, c.to)
+	if c.id == "bitcast" && fromVec != toVec {
+		// e.g. <N x i32> to iM and back: the element types are integers here
+		from, to = shape(fromVec, types.I32), shape(toVec, types.I64)
+	}
+	vfAssert("C06.casts.inst-yields-target", hTySame(c.inst(hV("v", from), to).Type(), to))
+	vfAssert("C06.casts.expr-yields-target", hTySame(c.expr(hC(from), to).Type(), to))
+}
